@@ -29,7 +29,7 @@ if harness:
 
 
 def included(rel):
-    m = re.match(r'^zz_verif_c(\d\d)\.go$', os.path.basename(rel))
+    m = re.match(r'^zz_verif_c(\d\d)(_\w+)?\.go$', os.path.basename(rel))
     if not m or harness is None:
         return True
     return harness[1:3] == m.group(1) or rel in wanted
